@@ -423,7 +423,7 @@ func Chunk[T comparable](slice []T, size int) [][]T {
 // Drop creates a new slice with n elements dropped from the beginning.
 // If n < 0 the elements will be dropped from the back of the collection.
 func Drop[T any](slice []T, n int) []T {
-	if Abs(n) < len(slice) {
+	if n > -len(slice) && n < len(slice) {
 		if n > 0 {
 			return slice[n:]
 		} else {
